@@ -2307,6 +2307,16 @@ macro_rules! value_dy_math_impl {
                     if a.rank() > 1 || b.rank() > 1 {
                         return None;
                     }
+                    // NaN is ordered after every other number, but min and max skip it.
+                    // In a sorted list, it can only be at an end.
+                    let nan_at_end = |val: &Value| {
+                        matches!(val, Value::Num(arr) if
+                            arr.data.first().is_some_and(|n| n.is_nan())
+                            || arr.data.last().is_some_and(|n| n.is_nan()))
+                    };
+                    if nan_at_end(a) || nan_at_end(b) {
+                        return None;
+                    }
                     let a_flags = a.meta.take_sorted_flags();
                     Some(if b.shape == [] {
                         a_flags
